@@ -14,7 +14,7 @@ git -C /repo worktree add --detach $wt HEAD -q || exit 2
 evbak=$(mktemp -d /root/scratch/evbak.XXXXXX); cp /verif/evidence/*.json $evbak/ 2>/dev/null
 # on exit: drop the worktree and regenerate the translator outputs (Gen/*.lean) from the real /repo, because the checks'
 # pregen hooks wrote them from the seeded tree
-trap 'git -C /repo worktree remove --force '$wt' >/dev/null 2>&1; cd /verif; for t in bits mem overlap pipe arb queue vcdsym; do env -u PV_REPO -u PYTHONPATH python3 tools/py2lean_$t.py >/dev/null 2>&1; done; cp '$evbak'/*.json /verif/evidence/ 2>/dev/null; rm -rf '$evbak EXIT
+trap 'git -C /repo worktree remove --force '$wt' >/dev/null 2>&1; cd /verif; for t in bits mem overlap pipe arb queue vcdsym procfl; do env -u PV_REPO -u PYTHONPATH python3 tools/py2lean_$t.py >/dev/null 2>&1; done; cp '$evbak'/*.json /verif/evidence/ 2>/dev/null; rm -rf '$evbak EXIT
 echo "== demo on clean tree"; (cd $wt && PYTHONPATH=$wt /venv/bin/python $dir/demo.py >$wt/.demo_clean.txt 2>&1; echo "exit=$?"; tail -2 $wt/.demo_clean.txt)
 (cd $wt && git apply $dir/patch.diff) || { echo "patch does not apply"; exit 2; }
 echo "== demo on seeded tree"; (cd $wt && PYTHONPATH=$wt /venv/bin/python $dir/demo.py >$wt/.demo_seeded.txt 2>&1; echo "exit=$?"; tail -3 $wt/.demo_seeded.txt)
